@@ -22,9 +22,12 @@ import (
 // range of any other page.
 //
 // A real MMU component (built with its builder, real Top/Control ports, real
-// serial engine) works on a real vm.PageTable. The harness is the requester: it
-// hands TranslationReqs to the Top port as its capacity allows and takes the
-// responses out. The page table handed to the MMU is a thin recording wrapper
+// serial engine) works on a real vm.PageTable. The harness is the requester: an
+// event per cycle on the same engine hands TranslationReqs to the Top port as
+// its capacity allows and takes the responses out, fast or slowly (a slow
+// requester leaves the outgoing buffer full, so finished walks are retried;
+// back-to-back requests give concurrent walks, also of the same page).
+// The page table handed to the MMU is a thin recording wrapper
 // around the real one (vm.PageTable has no iterator), so the complete final
 // contents are known; every recorded page is cross-checked with the real
 // table's Find at the end.
@@ -319,8 +322,9 @@ func runMMUCase(cs mmuCase) (string, []lib.Problem) {
 
 // mmuTables yields every assignment of a subset of frames 0..3 to distinct
 // (PID, vpage) pairs with at most maxPages pages, then a few tables in which
-// two processes share a frame. Tables with more than freeUpTo pages are
-// restricted to the canonical ones: pairs in increasing order along the frames.
+// two processes share a frame. From the (freeUpTo+1)-th page on, a page must
+// have a greater (PID, vpage) than the page before it (walking the frames
+// upward); freeUpTo >= maxPages means no restriction.
 func mmuTables(maxPages, freeUpTo int, yield func([]mmuPre) bool) bool {
 	var pairs []mmuReq
 	for pid := 1; pid <= 2; pid++ {
@@ -451,14 +455,16 @@ func init() {
 	lib.Register(&lib.Check{
 		ID:    "C27",
 		Level: "exploration",
-		Rule: "every (pre-populated table, request stream, configuration): tables = assignments of a subset of frames {0..3} to distinct (PID in {1,2}, vpage in {0,1,2}) pairs (page-aligned, table page size 4 KiB) plus 6 tables in which two processes share a frame; 'all' = all 1045 assignments, 'canonical' = all with <= 2 pages and, for 3..4 pages, the pairs in increasing order along the frames (300 tables); " +
-			"streams = every sequence over PID x vpage: quick: length <= 2 on the canonical tables, length 3 on the tables with <= 1 page; thorough: length <= 2 on all tables, length 3 on the canonical tables, length 4 on the tables with <= 1 page; MaxRequestsInFlight {1,2,4} x Top port capacity {1,4} x walk latency {0,2} x {requests back to back (concurrent walks, same page twice), one per idle period} x {all responses taken per idle period, one}; " +
-			"a real MMU with auto allocation on a real serial engine and a real vm.PageTable (behind a recording wrapper) is run until idle; oracle on the final table: every touched (PID,vpage) has exactly one mapping, no never-requested page appears, every auto-allocated page is an aligned valid table-size page whose [PAddr,PAddr+size) is disjoint from every other page, and every response carries the table's mapping. Each tuple is a distinct case.",
+		Rule: "every (pre-populated table, request stream, configuration): tables = assignments of a subset of frames {0..3} to distinct (PID in {1,2}, vpage in {0,1,2}) pairs (page-aligned, table page size 4 KiB) plus 6 tables in which two processes share a frame; 'all' = all 1045 assignments + the 6, 'canonical' = the 505 assignments in which, walking the frames upward, the third and fourth page have a greater (PID,vpage) than the page before + the 6, 'increasing' = the 185 assignments with >= 2 pages and (PID,vpage) increasing along the frames + the 6; " +
+			"configurations = MaxRequestsInFlight {1,2,4} x Top port capacity {1,4} (incoming and outgoing) x walk latency {0,2} x {requests handed over back to back as the port accepts them (concurrent walks, also of the same page), each only after all earlier ones were answered} x {requester takes all responses every cycle, one response every 4th cycle (full outgoing buffer: finished walks are retried)} = 48, 'adversarial' = the 6 with latency 2, back to back, slow requester; " +
+			"quick: every stream of length <= 2 over PID x vpage on the canonical tables x 48, length 3 on the 25 tables with <= 1 page x 48, length 3 on the increasing tables x adversarial; thorough: length <= 2 on all tables x 48, length 3 on the canonical tables x 48, length 4 on the tables with <= 1 page x 48, length 4 on the increasing tables x adversarial; " +
+			"a real MMU with auto allocation on a real serial engine and a real vm.PageTable (behind a recording wrapper) is driven by a requester that is an event per cycle on the same engine, until every request is answered; oracle on the final table: every (PID,vpage) that was answered has a mapping, no requested page has two, no never-requested page appears, every auto-allocated page is an aligned valid table-size page whose [PAddr,PAddr+size) is disjoint from every other page, and every response carries the table's mapping. Each tuple is a distinct case; counters report how many cases had concurrent walks and retried walks.",
 		Sharded:     true,
 		MinOutcomes: 30,
 		Assumptions: []string{
 			"pre-inserted pages are page-aligned and of the table's page size (unaligned or mixed-size pre-inserted pages are outside the check)",
-			"the harness plays the requester and the connection on the Top port; the Control port stays silent",
+			"the harness plays the requester and the connection on the Top port (one primary event per cycle, so it acts before the MMU's tick of that cycle); the Control port stays silent",
+			"the property is about the table, not about liveness: a page that was requested but never answered is only reported in the outcome classes (it does not occur)",
 			"vm.PageTable has no iterator: the final contents are the pre-inserted pages plus the Insert calls recorded by a forwarding wrapper, each cross-checked with Find on the real table",
 		},
 		Run: func(c *lib.Ctx) {
